@@ -14,7 +14,7 @@ PROPS["C07"] = dict(
     level_note="Trusts the 40-line reference interpreter and that a handler's trace events are recorded faithfully; "
                "setjmp/longjmp behaviour is that of the tested compilers (clang -O1 ASan, gcc -O0/-O2).",
     quick=[("asan", 8, 400), ("plain0", 4, 400)],
-    thorough=[("asan", 16, 6000), ("plain0", 16, 6000), ("plain", 16, 6000)],
+    thorough=[("asan", 16, 6000), ("plain0", 16, 6000), ("plain", 16, 6000), ("memcheck", 8, 20, {"budget": 900})],
     stack_mb=256,
     floors={"quick": {"inner_handled_outer_normal": 1, "propagated_2_levels": 1, "throw_from_handler": 1,
                       "uncaught_child_runs": 20, "lexical_programs": 100, "deep_nests": 4}},
@@ -38,7 +38,7 @@ PROPS["C09"] = dict(
     level_note="Trusts the C reference orders (<, memcmp, unsigned byte order, lexicographic loops); Tree reference "
                "uses the iteration direction observed on a two-element tree.",
     quick=[("asan", 16, 400), ("plain", 8, 400)],
-    thorough=[("asan", 16, 6000), ("plain", 16, 12000)],
+    thorough=[("asan", 16, 6000), ("plain", 16, 12000), ("memcheck", 8, 20, {"budget": 900})],
     floors={"quick": {"int_pairs_diff_beyond_32_bits": 100, "int_pairs_diff_beyond_64_bits": 10,
                       "float_pairs_with_denormal": 10, "strings_with_high_bytes": 10,
                       "string_pairs_sharing_prefix": 10, "seq_pairs_cross_kind": 10,
@@ -61,7 +61,7 @@ PROPS["C02"] = dict(
     level_note="Trusts the association-list model and the harness's reading of the Table struct (taken from the "
                "tree's own Table.c by unity inclusion; derived quantities recomputed). Sequences are sampled.",
     quick=[("asan", 16, 40), ("plain", 8, 40)],
-    thorough=[("asan", 16, 150), ("plain", 16, 400, {"env": {"VH_BIG": "1"}})],
+    thorough=[("asan", 16, 150), ("plain", 16, 400, {"env": {"VH_BIG": "1"}}), ("memcheck", 8, 3, {"budget": 900})],
     floors={"quick": {"updates_of_displaced_key": 1, "wrapped_entries_observed": 1,
                       "removals_shifting_back_2_or_more": 1, "rehash_grow": 5, "rehash_shrink": 5,
                       "set_after_resize0": 1, "distinct_slot_counts_seen": 5, "assign_from_tree": 1,
@@ -87,7 +87,7 @@ PROPS["C03"] = dict(
     level_note="Trusts the presence-array model and the validator's reading of the node layout (struct Tree comes "
                "from the tree's own Tree.c; the left/right orientation is observed, not assumed).",
     quick=[("asan", 16, 40), ("plain", 8, 40)],
-    thorough=[("asan", 16, 200), ("plain", 16, 500, {"env": {"VH_BIG": "1"}})],
+    thorough=[("asan", 16, 200), ("plain", 16, 500, {"env": {"VH_BIG": "1"}}), ("memcheck", 8, 3, {"budget": 900})],
     floors={"quick": dict([(c, 1) for c in _C03_CLASSES] + [
         ("rem_node_with_two_children", 5), ("insert_recolour_propagates", 1), ("insert_rotation", 5),
         ("drained_to_empty", 3), ("rem_root", 10), ("resize_0", 1), ("assign_from_table", 1), ("copies", 1),
@@ -108,7 +108,7 @@ PROPS["C04"] = dict(
     level_note="Trusts the C-array model. Conventions the statement leaves open (negative push_at index, resize "
                "growth per container) are accepted as observed and pinned per container kind, see DESIGN C04.",
     quick=[("asan", 16, 36), ("plain", 8, 36)],
-    thorough=[("asan", 16, 500), ("plain", 16, 1500)],
+    thorough=[("asan", 16, 500), ("plain", 16, 1500), ("memcheck", 8, 3, {"budget": 900})],
     floors={"quick": {"array_growth_reallocations": 10, "array_shrink_reallocations": 10, "push_at_front": 5,
                       "push_at_last_index": 5, "pop_at_front": 5, "pop_at_last_index": 5, "sorts_with_ties": 5,
                       "rem_with_duplicates": 5, "concat": 5, "assign": 5, "copy": 5, "push_at_negative": 5}},
@@ -128,7 +128,7 @@ PROPS["C16"] = dict(
                "observable compared with libc on the reference after every operation, under ASan+UBSan.",
     level_note="Trusts libc (strcpy/strcat/strstr/memmove/strcmp) on the reference buffer.",
     quick=[("asan", 16, 600), ("plain", 8, 600)],
-    thorough=[("asan", 16, 6000), ("plain", 16, 20000)],
+    thorough=[("asan", 16, 6000), ("plain", 16, 20000), ("memcheck", 8, 30, {"budget": 900})],
     floors={"quick": {"rem_at_start": 20, "rem_in_middle": 20, "rem_at_end": 20, "rem_overlapping_occurrences": 5,
                       "rem_first_of_several": 20, "rem_absent": 20, "empty_argument": 20,
                       "argument_equal_to_target": 10, "resize_0": 10, "resize_grow": 20, "formatted_writes": 50}},
@@ -153,7 +153,7 @@ PROPS["C14"] = dict(
                "splitting, argument conversion, sink handling and position accounting.  *, L, n, lc, ls are outside "
                "Cello's one-argument-per-specification interface and are not generated.",
     quick=[("asan", 16, 1500), ("plain", 8, 1500)],
-    thorough=[("asan", 16, 20000), ("plain", 16, 40000)],
+    thorough=[("asan", 16, 20000), ("plain", 16, 40000), ("memcheck", 8, 75, {"budget": 900})],
     floors={"quick": {"spec_at_very_start": 100, "spec_at_very_end": 100, "adjacent_specs": 100,
                       "nonzero_start_positions": 100, "file_sink_runs": 100, "too_few_argument_runs": 100,
                       "items_show": 100, "items_float": 100, "items_int": 100, "items_string": 100}},
@@ -176,7 +176,7 @@ PROPS["C15"] = dict(
     level_note="Float equality is 'within the printed precision' (0.5e-6 for %f, 6 significant digits for %e/%g, "
                "exact for %a). Numeric scan specifications are those valid in both printf and scanf (no precision).",
     quick=[("asan", 16, 1500), ("plain", 8, 1500)],
-    thorough=[("asan", 16, 20000), ("plain", 16, 40000)],
+    thorough=[("asan", 16, 20000), ("plain", 16, 40000), ("memcheck", 8, 75, {"budget": 900})],
     floors={"quick": {"fixed_roundtrips": 250, "sequences_with_separators": 100, "nonzero_start_positions": 100,
                       "file_reopen": 50, "file_seek_back": 50, "int_numeric_spec_int_range_negative": 10,
                       "float_numeric_spec": 50, "int_numeric_spec_full_range": 50}},
@@ -202,7 +202,7 @@ PROPS["C01"] = dict(
                "reported. The shadow graph contains only word-aligned pointers to object starts stored in memory the "
                "collector documents as scanned. A register as the only root cannot be forced from C.",
     quick=[("asan", 16, 30), ("plain", 8, 40, {"env": {"VH_LONG_CHAINS": "1"}})],
-    thorough=[("asan", 16, 600), ("plain", 16, 1500, {"env": {"VH_LONG_CHAINS": "1"}})],
+    thorough=[("asan", 16, 600), ("plain", 16, 1500, {"env": {"VH_LONG_CHAINS": "1"}}), ("memcheck", 8, 3, {"budget": 900})],
     stack_mb=None,
     floors={"quick": {"forced_collections": 50, "threshold_collections_that_freed_something": 10,
                       "sweeps_that_freed_something": 10, "rootkind_checked:stack": 1,
@@ -235,7 +235,7 @@ PROPS["C17"] = dict(
                "for those only 'no unknown, deleted or duplicate entry' and 'every reachable object present' are "
                "checked; probes (with destructors) are checked exactly.",
     quick=[("asan", 16, 30), ("plain", 8, 60)],
-    thorough=[("asan", 16, 600), ("plain", 16, 2000)],
+    thorough=[("asan", 16, 600), ("plain", 16, 2000), ("memcheck", 8, 3, {"budget": 900})],
     floors={"quick": {"forced_collections": 50, "registry_walks_inside_sweep": 20, "registry_wrapped_entries": 1,
                       "registry_entries_displaced_2_or_more": 10, "explicit_deletions": 5, "explicit_deletions_while_stopped": 5,
                       "root_holders_allocated": 5, "root_holders_deleted": 1}},
@@ -260,7 +260,7 @@ PROPS["C06"] = dict(
                "garbage); what is decided is exactly-once finalisation, finalisation by del*, and complete release at "
                "the latest at teardown. Probe destructors allocate nothing.",
     quick=[("asan", 16, 45), ("plain", 8, 90)],
-    thorough=[("asan", 16, 900), ("plain", 16, 3000)],
+    thorough=[("asan", 16, 900), ("plain", 16, 3000), ("memcheck", 8, 3, {"budget": 900})],
     floors={"quick": {"garbage_pairs_owner_swept_before_owned": 20, "garbage_pairs_owned_swept_before_owner": 20,
                       "deletions_inside_stop_window": 10, "allocations_inside_stop_window": 10,
                       "worker_teardowns_with_live_garbage": 50, "process_teardowns_with_live_garbage": 50,
@@ -287,7 +287,7 @@ PROPS["C05"] = dict(
     level_note="Trusts the ledger (token ids never reused) and the per-container models. Replacing a Box element by "
                "assignment leaves the old pointee to the collector (promptness is not decidable).",
     quick=[("asan", 16, 150), ("plain", 8, 150)],
-    thorough=[("asan", 16, 800), ("plain", 16, 2500)],
+    thorough=[("asan", 16, 800), ("plain", 16, 2500), ("memcheck", 8, 7, {"budget": 900})],
     floors={"quick": {"table_replace_under_collision": 20, "table_states_with_25_or_more_bindings": 20,
                       "cross_kind_assigns": 10, "same_kind_assigns": 10, "copies": 20, "clears": 20,
                       "sort_swap_moves": 10, "concats": 10, "box_container_operations": 200,
@@ -314,7 +314,7 @@ PROPS["C11"] = dict(
                "-len are not pinned to one normalisation (only [0,len] is required). The iteration order of Table "
                "and Tree is observed, not prescribed (C02/C03 own it).",
     quick=[("asan", 16, 60), ("plain", 8, 60)],
-    thorough=[("asan", 16, 6000), ("plain", 16, 20000)],
+    thorough=[("asan", 16, 6000), ("plain", 16, 20000), ("memcheck", 8, 3, {"budget": 900})],
     floors={"quick": {"range_grid_points": 1000, "slice_grid_points": 50000, "reverse_views": 30,
                       "zips_of_unequal_lengths": 20, "compositions_of_depth_2_or_more": 100,
                       "compositions_of_depth_3": 20, "slices_length_not_divisible_by_step": 50,
@@ -344,7 +344,7 @@ PROPS["C12"] = dict(
                "that fault class (e.g. wrong type: TypeError/ValueError/ClassError). Views other than Range and File "
                "faults (C20) are not in the table.",
     quick=[("asan", 16, 40), ("plain", 8, 40)],
-    thorough=[("asan", 16, 1500), ("plain", 16, 4000)],
+    thorough=[("asan", 16, 1500), ("plain", 16, 4000), ("memcheck", 8, 3, {"budget": 900})],
     floors={"quick": {"distinct_faults_in_table": 300, "sequence_objects_faulted": 100, "map_objects_faulted": 100,
                       "string_objects_faulted": 50, "range_objects_faulted": 50, "scalar_objects_faulted": 1}},
     exhaustive=False,
@@ -367,7 +367,7 @@ PROPS["C10"] = dict(
     level_note="Equality by construction is trusted (the harness writes the same value twice). Identity with "
                "MurmurHash is not required - the statement asks for a function of the value.",
     quick=[("asan", 16, 150), ("plain", 8, 150)],
-    thorough=[("asan", 16, 6000), ("plain", 16, 20000)],
+    thorough=[("asan", 16, 6000), ("plain", 16, 20000), ("memcheck", 8, 7, {"budget": 900})],
     floors={"quick": {"blob_swaps_size_not_multiple_of_8": 1000, "blob_array_sorts": 1000, "allocation_class_groups": 500, "signed_zero_pairs": 100, "cross_kind_equal_pairs": 2000,
                       "sequence_history_groups": 500, "map_history_groups": 1000, "swaps": 2000,
                       "hash_data_alignment_sweeps": 500, "table_eq_reproducer_runs": 1}},
@@ -390,7 +390,7 @@ PROPS["C20"] = dict(
     level_note="Where an append stream stands before its first seek is left to the C library. Reads and writes on "
                "update streams are separated by a seek, as C requires.",
     quick=[("asan", 16, 120), ("plain", 8, 120)],
-    thorough=[("asan", 16, 3000), ("plain", 16, 10000)],
+    thorough=[("asan", 16, 3000), ("plain", 16, 10000), ("memcheck", 8, 6, {"budget": 900})],
     floors={"quick": {"closed_file_probes": 200, "reads_past_the_end": 50, "zero_byte_writes": 20,
                       "writes_larger_than_a_stdio_buffer": 20, "seeks_from_start": 50, "seeks_from_current": 50,
                       "seeks_from_end": 50, "reopens_while_open": 50, "dels_of_open_files": 20, "with_blocks": 1,
@@ -415,7 +415,7 @@ PROPS["C19"] = dict(
     level_note="Embedded Strings may legitimately reallocate their own buffer, so only freeing operations are "
                "refused for them; reallocating operations are refused for stack and static Strings and Tuples.",
     quick=[("asan", 16, 30), ("plain", 8, 30)],
-    thorough=[("asan", 16, 1500), ("plain", 16, 4000)],
+    thorough=[("asan", 16, 1500), ("plain", 16, 4000), ("memcheck", 8, 3, {"budget": 900})],
     floors={"quick": {"sized_map_checks": 2000, "sized_sequence_checks": 1000, "sized_maps_value_larger_than_key": 100, "sized_maps_key_larger_than_value": 100, "objects_observed": 5000, "refusals_checked": 2000, "neighbour_checks": 100,
                       "heap_objects_released_once": 50, "empty_registry_thread_runs": 20}},
     rule="evaluation = one observation or one refused operation; the enumeration is run completely at sizes "
@@ -441,14 +441,15 @@ PROPS["C08"] = dict(
                "are written with the same value by every thread; results are checked, the benign writes are not "
                "treated as violations.",
     quick=[("asan", 16, 120), ("plain", 8, 120)],
-    thorough=[("asan", 16, 900), ("plain", 16, 3000)],
+    thorough=[("asan", 16, 900), ("plain", 16, 3000), ("memcheck", 8, 6, {"budget": 900})],
     exhaustive=False,
     floors={"quick": {"cells_checked": 20000, "type_objects_in_matrix": 70, "casts_checked": 60, "runtime_types": 100,
                       "runtime_types_with_200_or_more_instances": 5, "runtime_types_with_no_instance": 1,
                       "dispatches_to_declared_member": 500, "dispatches_to_empty_member": 500,
                       "dispatches_to_missing_class": 500, "concurrent_cold_start_trials": 200,
                       "random_lookup_histories": 50, "oversized_type_attempts": 1, "terminal_reproducer_runs": 1,
-                      "near_name_classes_declared": 200, "undeclared_near_name_lookups": 10000}},
+                      "near_name_classes_declared": 200, "undeclared_near_name_lookups": 10000,
+                      "fallback_types": 500, "fallback_calls_to_empty_member": 3000, "fallback_calls_to_filled_member": 1500}},
     rule="case = a run-time type with a random instance list and all its dispatcher calls, or a random history of "
          "200-600 lookups over all known types (cold or warm), or 10-40 concurrent cold-start trials; the built-in "
          "matrix is enumerated completely by shard 0; distinct = hash of the case description; non-trivial = every "
@@ -473,7 +474,7 @@ PROPS["C13"] = dict(
                "results checked by C08). Schedules are sampled, not enumerated. c_int(thread)/running(thread) are "
                "not called concurrently with thread start-up (not part of the property).",
     quick=[("tsan", 4, 5), ("plain", 4, 10)],
-    thorough=[("tsan", 8, 40), ("plain", 8, 150)],
+    thorough=[("tsan", 8, 40), ("plain", 8, 150), ("memcheck", 8, 3, {"budget": 900})],
     timeout={"quick": 900, "thorough": 5400},
     floors={"quick": {"digests_compared_with_solo_run": 100, "mutex_sections": 10000,
                       "mutex_handovers_between_threads": 1000, "trylock_sections_that_had_to_wait": 10,
